@@ -8,11 +8,11 @@ open VaxisModel.Model
 
 variable {A : Type} [DecidableEq A]
 
-/-- Every statement and expression of the ten TextField functions and of textinput's `SetContent`,
+/-- Every statement and expression of the ten TextField functions, `TextField.Draw`, and of textinput's `SetContent`,
     `Update`, `resegment` was recognised by the translator. -/
 theorem editor_bodies_fully_recognised :
     [tfHandleEvent, tfCheckChanged, tfReset, tfInsertStringAtCursor, tfCursorTo, tfDeleteCharRightOfCursor,
-     tfDeleteCharLeftOfCursor, tfDeleteCursorToEndOfLine, tfInsertLoop, tfGraphemeCount, tiSetContent, tiUpdate,
+     tfDeleteCharLeftOfCursor, tfDeleteCursorToEndOfLine, tfInsertLoop, tfGraphemeCount, tfDraw, tiSetContent, tiUpdate,
      tiResegment].all Fn.fullyRecognised = true := by decide
 
 /-- `graphemeCountInString` counts the clusters. -/
